@@ -445,8 +445,8 @@ func run(t *vlib.T) {
 				if len(seq) >= 2 && len(seq) >= emitFrom {
 					s := append([]lookup{}, seq...)
 					d := dev
-					if t.Thorough() && (len(s) == depth || limit != limits[0]) {
-						d = 1 // deepest histories and the second limit: one eviction-order deviation
+					if t.Thorough() && (len(s) >= 3 || limit != limits[0]) {
+						d = 1 // two eviction-order deviations for pairs at the first limit only
 					}
 					t.Case(fmt.Sprintf("hist/limit%d/prefill%d/%v", limit, pf, s), func() *vlib.Outcome {
 						return exploreHistory(limit, pf, s, d, objs)
@@ -458,6 +458,9 @@ func run(t *vlib.T) {
 				al := alpha
 				if t.Thorough() && len(seq) >= smallFrom {
 					al = alphaSmall
+					if emitFrom == depth {
+						al = alphaCore // deepest pass: the core alphabet from the second position on
+					}
 				}
 				if !t.Thorough() && len(seq) >= 2 {
 					al = alphaCore
@@ -468,11 +471,13 @@ func run(t *vlib.T) {
 			}
 			if !t.Thorough() {
 				rec(nil, depth, 2, 0)
-			} else {
+			} else if limit == limits[0] {
 				rec(nil, depth-1, 2, 2)
-				if limit == limits[0] {
-					rec(nil, depth, depth, 1)
+				if pf > 0 {
+					rec(nil, depth, depth, 1) // deepest pass: from caches that evict
 				}
+			} else {
+				rec(nil, 2, 2, 2) // second limit (137 eviction-order alternatives per point): pairs only
 			}
 		}
 	}
@@ -491,7 +496,9 @@ func run(t *vlib.T) {
 						t.Case(fmt.Sprintf("hot%d/limit%d/prefill%d/%v", heat, limit, pf, sq), func() *vlib.Outcome {
 							fillerHeat = heat
 							defer func() { fillerHeat = 1 }()
-							return exploreHistory(limit, pf, sq, dev, objs)
+							// one eviction-order deviation: a pre-fill past the limit evicts while it fills, so a
+							// second deviation multiplies the choice points of the pre-fill itself
+							return exploreHistory(limit, pf, sq, 1, objs)
 						})
 					}
 				}
